@@ -26,6 +26,19 @@ def loc(node, default="src/mqtt/pdu.py"):
     return "src/mqtt/pdu.py:%d" % node.lineno if node is not None and hasattr(node, "lineno") else default
 
 
+def header_skip(decm, facts):
+    """(applicable, ok, line, message): does the decoder skip the fixed header the way decodeLength reads the remaining length?"""
+    if not (decm.reads or decm.hdr["found"]):
+        return False, True, 0, ""
+    h = decm.hdr
+    if not h["found"]:
+        return True, False, 0, "the decoder reads the body without skipping the remaining-length field"
+    el, dl = facts["length"]
+    ok = h["mask"] == dl["test"] and h["start"] == 1 and h["plus"] == 1 and h.get("step", 1) == 1
+    return True, ok, h["node"].lineno, ("header skip: start index %s, mask %s, index advanced by %s per length byte, body starts at scanned "
+                                        "index + %s (must be 1, 0x80, 1, 1)" % (h["start"], h["mask"], h.get("step", 1), h["plus"]))
+
+
 def check(ctx):
     a = ctx.a
     prog = a.prog
@@ -66,11 +79,12 @@ def check(ctx):
             h = decm.hdr
             if h["found"]:
                 el, dl = facts["length"]
-                ok = h["mask"] == dl["test"] and h["start"] == 1 and h["plus"] == 1
+                ok = h["mask"] == dl["test"] and h["start"] == 1 and h["plus"] == 1 and h.get("step", 1) == 1
                 ctx.ob("L1", "%s.decode skips the fixed header with decodeLength's continuation bit" % name, ok,
                        where="src/mqtt/pdu.py:%d" % h["node"].lineno, function="mqtt.pdu.%s.decode" % name,
                        construct="mqtt.pdu.%s/header-skip" % name,
-                       msg="header skip: start index %s, mask %s, body starts at scanned index + %s (must be 1, 0x80, 1)" % (h["start"], h["mask"], h["plus"]))
+                       msg="header skip: start index %s, mask %s, index advanced by %s per length byte, body starts at scanned index + %s "
+                           "(must be 1, 0x80, 1, 1)" % (h["start"], h["mask"], h.get("step", 1), h["plus"]))
             else:
                 ctx.ob("L1", "%s.decode skips the fixed header" % name, False, where="src/mqtt/pdu.py:%d" % c.node.lineno,
                        construct="mqtt.pdu.%s/header-skip" % name, msg="the decoder reads the body without skipping the remaining-length field")
